@@ -266,3 +266,110 @@ Example C11_example_run :
   | _ => False
   end.
 Proof. vm_compute. repeat split. Qed.
+
+(* ============================================================================================ *)
+(* ==== agent-full: the phenotype cache THROUGH THE MUTATORS (strengthens C11_cache_partial) === *)
+(* model/PhenoCache.v adds the field Genome.Phenotype to the genome model as a thin layer: a       *)
+(* [cached] is a genome with its cached network ([cg_genome], [cg_pheno : option pnet]);            *)
+(* [cg_mutate_add_link] is Genome.mutateAddLink including "if g.Phenotype == nil { Genesis(generation) }" *)
+(* and "g.Phenotype = nil" after the insertion (fix 30a7ec9); every other mutator is [cg_lift m]:   *)
+(* the plain mutator m of model/Mutate.v on the genome, the field carried along untouched (no other *)
+(* mutator reads or writes it); [cg_mutate_baby] is the mutation step of Species.reproduce;         *)
+(* [cg_org_phenotype c] is Organism.Phenotype() of NewOrganism(_, g, _) (which copies the field).   *)
+(* [cache_fresh c]: the cache is empty or is genesis (cg_genome c) netId for some network id.       *)
+(* Proofs: proofs/FullStatementsC11.v.  The implementation side of the same statements is the       *)
+(* Go-side cache oracle of harness/c11.go (cache-stale-at-creation / cache-stale / epoch-cache-stale). *)
+(* ============================================================================================ *)
+From NeatModel Require Import GoRand Options Mutate PhenoCache.
+From NeatModel Require Population FullStatementsC11.
+
+Theorem C11_cache_vocabulary :
+  (forall c, cache_fresh c <->
+     match cg_pheno c with None => True | Some n => exists netId, genesis (cg_genome c) netId = Ok n end) /\
+  (forall m c s, cg_lift m c s =
+     match m (cg_genome c) s with
+     | Ok ((g', b), s') => Ok (({| cg_genome := g'; cg_pheno := cg_pheno c |}, b), s')
+     | GoErr e => GoErr e | GoPanic e => GoPanic e | OutOfTape => OutOfTape | OutOfFuel => OutOfFuel | BadOracle => BadOracle
+     end) /\
+  (forall c, cg_org_phenotype c = org_phenotype (cg_pheno c) (cg_genome c)).
+Proof.
+  split; [intros c; reflexivity|]. split; [|intros c; reflexivity].
+  intros m c s. unfold cg_lift, bindM, ret. destruct (m (cg_genome c) s) as [[[g' b] s']| | | | |]; reflexivity.
+Qed.
+Print Assumptions C11_cache_vocabulary.
+
+(* mutateAddLink, from ANY cache state: on the genome it is the plain mutator; when a gene was inserted
+   (b = true) the cache is dropped; otherwise the genome is unchanged and the cache is what it was or, if it
+   was empty, the network Genesis(generation) built from the unchanged genome.  Hence an up-to-date cache
+   stays up to date. *)
+Theorem C11_cache_add_link : forall o gen c s c' b s',
+  cg_mutate_add_link o gen c s = Ok ((c', b), s') ->
+  mutate_add_link o (cg_genome c) s = Ok ((cg_genome c', b), s') /\
+  ((b = true /\ cg_pheno c' = None) \/
+   (b = false /\ cg_genome c' = cg_genome c /\
+    ((exists n, cg_pheno c = Some n /\ cg_pheno c' = Some n) \/
+     (exists n, cg_pheno c = None /\ genesis (cg_genome c) gen = Ok n /\ cg_pheno c' = Some n)))) /\
+  (cache_fresh c -> cache_fresh c').
+Proof.
+  intros o gen c s c' b s' H. destruct (FullStatementsC11.cg_add_link_inv o gen c s c' b s' H) as [A B].
+  exact (conj A (conj B (fun F => FullStatementsC11.add_link_keeps_cache_fresh o gen c s c' b s' F H))).
+Qed.
+Print Assumptions C11_cache_add_link.
+
+(* every mutator of model/Mutate.v, applied to a genome whose cache is empty (fresh from duplicate or a
+   crossover: the only way Species.reproduce applies them): the genome part is the plain mutator's result;
+   afterwards the cache is empty, or -- only after a mutateAddLink that inserted nothing -- it is the
+   expression, under the generation number as network id, of the genome, which is then unchanged *)
+Theorem C11_cache_after_mutators : forall o gen pw rt ga times c s c' b s',
+  cg_pheno c = None ->
+  (cg_mutate_add_link o gen c s = Ok ((c', b), s') -> mutate_add_link o (cg_genome c) s = Ok ((cg_genome c', b), s')) /\
+  (cg_mutate_add_node o c s = Ok ((c', b), s') -> mutate_add_node o (cg_genome c) s = Ok ((cg_genome c', b), s')) /\
+  (cg_mutate_connect_sensors c s = Ok ((c', b), s') -> mutate_connect_sensors (cg_genome c) s = Ok ((cg_genome c', b), s')) /\
+  (cg_mutate_link_weights pw rt ga c s = Ok ((c', b), s') -> mutate_link_weights pw rt ga (cg_genome c) s = Ok ((cg_genome c', b), s')) /\
+  (cg_mutate_random_trait o c s = Ok ((c', b), s') -> mutate_random_trait o (cg_genome c) s = Ok ((cg_genome c', b), s')) /\
+  (cg_mutate_link_trait times c s = Ok ((c', b), s') -> mutate_link_trait times (cg_genome c) s = Ok ((cg_genome c', b), s')) /\
+  (cg_mutate_node_trait times c s = Ok ((c', b), s') -> mutate_node_trait times (cg_genome c) s = Ok ((cg_genome c', b), s')) /\
+  (cg_mutate_toggle_enable times c s = Ok ((c', b), s') -> mutate_toggle_enable times (cg_genome c) s = Ok ((cg_genome c', b), s')) /\
+  (cg_mutate_gene_reenable c s = Ok ((c', b), s') -> mutate_gene_reenable (cg_genome c) s = Ok ((cg_genome c', b), s')) /\
+  (cg_mutate_all_nonstructural o c s = Ok ((c', b), s') -> mutate_all_nonstructural o (cg_genome c) s = Ok ((cg_genome c', b), s')) /\
+  (cg_mutate_add_link o gen c s = Ok ((c', b), s') \/ cg_mutate_add_node o c s = Ok ((c', b), s') \/
+   cg_mutate_connect_sensors c s = Ok ((c', b), s') \/ cg_mutate_link_weights pw rt ga c s = Ok ((c', b), s') \/
+   cg_mutate_random_trait o c s = Ok ((c', b), s') \/ cg_mutate_link_trait times c s = Ok ((c', b), s') \/
+   cg_mutate_node_trait times c s = Ok ((c', b), s') \/ cg_mutate_toggle_enable times c s = Ok ((c', b), s') \/
+   cg_mutate_gene_reenable c s = Ok ((c', b), s') \/ cg_mutate_all_nonstructural o c s = Ok ((c', b), s') ->
+   cache_fresh c' /\
+   (cg_pheno c' = None \/
+    exists n, cg_pheno c' = Some n /\ cg_genome c' = cg_genome c /\ b = false /\ genesis (cg_genome c') gen = Ok n)).
+Proof. exact FullStatementsC11.mutators_leave_cache_fresh. Qed.
+Print Assumptions C11_cache_after_mutators.
+
+(* the mutation step of Species.reproduce (model/Population.v, mutate_baby) on a fresh genome: same genome as
+   the plain step, cache up to date *)
+Theorem C11_cache_mutate_baby : forall o gen c s c' b s',
+  cg_pheno c = None -> cg_mutate_baby o gen c s = Ok ((c', b), s') ->
+  Population.mutate_baby o (cg_genome c) s = Ok ((cg_genome c', b), s') /\ cache_fresh c' /\
+  (cg_pheno c' = None \/ exists n, cg_pheno c' = Some n /\ cg_genome c' = cg_genome c /\ genesis (cg_genome c') gen = Ok n).
+Proof. exact FullStatementsC11.mutate_baby_cache. Qed.
+Print Assumptions C11_cache_mutate_baby.
+
+(* the organism created from a genome with an up-to-date cache: Organism.Phenotype() is the expression of
+   its own genome (under the genome's id when the cache was empty, C11_cache_partial; under the generation
+   number when an unsuccessful mutateAddLink left its network behind) *)
+Theorem C11_cache_organism_phenotype : forall c n,
+  cache_fresh c -> cg_org_phenotype c = Ok n -> exists netId, genesis (cg_genome c) netId = Ok n.
+Proof. exact FullStatementsC11.organism_phenotype_fresh. Qed.
+Print Assumptions C11_cache_organism_phenotype.
+
+(* "whose cache is empty" cannot be dropped for the mutators other than mutateAddLink: a genome with a
+   disabled gene and an up-to-date non-empty cache (two links); mutateGeneReEnable leaves the field alone and
+   the cached network (still two links) is not the expression of the mutated genome (three links) under
+   any id.  The library never does this (mutators run on genomes fresh from duplicate / crossover); the hook
+   VMutate drops the field first for the same reason. *)
+Theorem C11_cache_stale_after_reenable_with_nonempty_cache : forall s,
+  exists c', cg_mutate_gene_reenable FullStatementsC11.stale_start s = Ok ((c', true), s) /\
+             cache_fresh FullStatementsC11.stale_start /\ ~ cache_fresh c' /\
+             cg_pheno c' = Some FullStatementsC11.stale_net /\
+             FullStatementsC11.net_links FullStatementsC11.stale_net = 2%nat /\
+             forall netId m, genesis (cg_genome c') netId = Ok m -> FullStatementsC11.net_links m = 3%nat.
+Proof. exact FullStatementsC11.cache_stale_after_reenable. Qed.
+Print Assumptions C11_cache_stale_after_reenable_with_nonempty_cache.
